@@ -16,7 +16,7 @@ def one(s):
     except Exception:
         det = {"ERROR": (r.stdout + r.stderr)[-300:]}
     return s, det
-with ThreadPoolExecutor(max_workers=8) as ex:
+with ThreadPoolExecutor(max_workers=14) as ex:
     results = list(ex.map(one, seeds))
 index_p = VERIF / "seeded" / "INDEX.json"
 index = {e["id"]: e for e in json.loads(index_p.read_text())} if index_p.exists() else {}
